@@ -31,6 +31,7 @@ partial def decE (j : Json) : Except String E := do
     pure (.chain (← decE (← fld j "l")) (← decCop (← getStr j "o1")) (← decE (← fld j "m")) (← decCop (← getStr j "o2")) (← decE (← fld j "r")) p)
   | "ifx" => pure (.ifx (← decE (← fld j "t")) (← decE (← fld j "c")) (← decE (← fld j "f")) p)
   | "named" => pure (.named (← getStr j "n") (← decE (← fld j "v")) p)
+  | "tup" => pure (.tup (← decE (← fld j "a")) (← decE (← fld j "b")) p)
   | s => .error s!"bad-op: expression kind {s}"
 
 def encE : E → Json
@@ -45,14 +46,15 @@ def encE : E → Json
     jobj [("k", jstr "chain"), ("l", encE l), ("o1", jstr (encCop a)), ("m", encE x), ("o2", jstr (encCop c)), ("r", encE r), ("p", jbool p)]
   | .ifx t c f p => jobj [("k", jstr "ifx"), ("t", encE t), ("c", encE c), ("f", encE f), ("p", jbool p)]
   | .named n v p => jobj [("k", jstr "named"), ("n", jstr n), ("v", encE v), ("p", jbool p)]
+  | .tup a b p => jobj [("k", jstr "tup"), ("a", encE a), ("b", encE b), ("p", jbool p)]
 
 /-- `prec`: everything the model says about one tree -/
 def opPrec (j : Json) : Except String Json := do
   let e ← decE (← fld j "e")
   let c := combine true e
   let i := invert true e
-  pure <| jobj [("wp", jarr ((List.range 8).map fun m => jbool (WP m e))), ("render", jstr (render e)),
-                ("combine", encE c), ("combine_wp0", jbool (WP 0 c)), ("combine_old", encE (combine false e)),
+  pure <| jobj [("wp", jarr ((List.range 11).map fun m => jbool (WP m e))), ("render", jstr (render e)),
+                ("rhs_ok", jbool (WPrhs e)), ("combine", encE c), ("combine_wp0", jbool (WP 0 c)), ("combine_old", encE (combine false e)),
                 ("invert", encE i), ("invert_wp0", jbool (WP 0 i)), ("invert_old", encE (invert false e)), ("invert_raises", jbool (invertRaises e))]
 
 /-- `prec_walrus`: the new `if` test for `n = value` followed by a test of one of the three shapes -/
@@ -67,6 +69,6 @@ def opPrecWalrus (j : Json) : Except String Json := do
     | "cmp" => pure (Test.cmpName (← decCop (← getStr tj "op")) (← decE (← fld tj "rhs")) (← getBool tj "p"))
     | s => .error s!"bad-op: test shape {s}"
   let out := walrus true n v single t
-  pure <| jobj [("out", encE out), ("out_wp0", jbool (WP 0 out)), ("value_wp1", jbool (WP 1 v)), ("old", encE (walrus false n v single t))]
+  pure <| jobj [("out", encE out), ("out_wp_if", jbool (WP 1 out)), ("value_rhs_ok", jbool (WPrhs v)), ("old", encE (walrus false n v single t))]
 
 end CM.Driver
